@@ -391,3 +391,29 @@ CASES["C12"] = [
     ("terminator guard dropped for constants", "mutant", CASTSF, "        if any(use.operation.has_trait(IsTerminator) for use in const_source.result.uses):\n            return\n", "", ["C12.const-guards"]),
     ("twin: copy-out classification via local", "twin", CASTSF, "            if isinstance(use_op, linalg.GenericOp):\n                is_output = op.results[0] in use_op.outputs", "            if isinstance(use_op, linalg.GenericOp):\n                is_output = op.dest in use_op.outputs", []),
 ]
+
+L2K = "snaxc/transforms/convert_linalg_to_kernel.py"
+K2L = "snaxc/transforms/convert_kernel_to_linalg.py"
+KERNELD = "snaxc/dialects/kernel.py"
+DISPK = "snaxc/transforms/dispatch_kernels.py"
+DISPATCHING = "snaxc/accelerators/dispatching.py"
+GEMMX = "snaxc/accelerators/snax_gemmx.py"
+
+CASES["C18"] = [
+    ("SupportedKernel with one type too few", "mutant", GEMMX, "SupportedKernel(kernel.MacOp, (i8, i8, i32)),", "SupportedKernel(kernel.MacOp, (i8, i8)),", ["C18.tables"]),
+    ("is_same_kernel without the type list", "mutant", DISPATCHING, "        return list(self.operand_types) == [*kernel_op.operand_types, *kernel_op.result_types]", "        return True", ["C18.tables"]),
+    ("rescale clamps swapped", "mutant", K2L, "        clamped_max = MinSIOp(with_zp_out, max)\n        clamped_min = MaxSIOp(clamped_max, min)", "        clamped_max = MaxSIOp(with_zp_out, max)\n        clamped_min = MinSIOp(clamped_max, min)", ["C18.rescale-lowering"]),
+    ("rescale output zp guarded by input zp", "mutant", K2L, "        with_zp_out = AddiOp(trunced, zp_out)\n        clamped_max = MinSIOp(with_zp_out, max)", "        with_zp_out = AddiOp(trunced, zp_out) if op.input_zp.value.data else trunced\n        clamped_max = MinSIOp(with_zp_out, max)", ["C18.rescale-lowering", "internal"]),
+    ("rescale zero points swapped", "mutant", K2L, "zp_in = ConstantOp.from_int_and_width(op.input_zp.value.data, builtin.IntegerType(32))\n        zp_out = ConstantOp.from_int_and_width(op.output_zp.value.data, builtin.IntegerType(32))", "zp_in = ConstantOp.from_int_and_width(op.output_zp.value.data, builtin.IntegerType(32))\n        zp_out = ConstantOp.from_int_and_width(op.input_zp.value.data, builtin.IntegerType(32))", ["C18.rescale-lowering"]),
+    ("rescale shift before multiply", "mutant", K2L, "        multed = MuliOp(extended, mult)\n        shifted = ShRSIOp(multed, shift)", "        multed = ShRSIOp(extended, shift)\n        shifted = MuliOp(multed, mult)", ["C18.rescale-lowering"]),
+    ("operand-count test of ParseLinalgBody dropped", "mutant", L2K, "            if len(op_def.get_irdl_definition().operands) != len(linalg_op.body.block.args[:-1]):\n                # wrong number of operands, continue search\n                continue\n", "", ["C18.parse"]),
+    ("equivalence: length test dropped", "mutant", L2K, "    if len(block_a.ops) != len(block_b.ops):\n        return False\n", "", ["C18.all-ops"]),
+    ("equivalence: sign extensions ignored", "mutant", L2K, "    for op_a, op_b in zip(block_a.ops, block_b.ops, strict=True):", "    for op_a, op_b in zip([o for o in block_a.ops if o.name != 'arith.extsi'], [o for o in block_b.ops if o.name != 'arith.extsi']):", ["C18.all-ops"]),
+    ("equivalence: first mismatch accepted", "mutant", L2K, "        if type(op_a) is not type(op_b):\n            return False\n", "        if type(op_a) is type(op_b):\n            return True\n", ["C18.all-ops"]),
+    ("dispatch: kernel type test dropped", "mutant", DISPK, "                if supported_kernel.kernel_type is not type(kernel_op):\n                    # no, continue\n                    continue\n", "", ["C18.dispatch"]),
+    ("mac region with two arguments", "mutant", KERNELD, "        def equivalent_region(args: tuple[BlockArgument, ...]) -> None:\n            mul = arith.MuliOp(args[0], args[1])\n            mac = arith.AddiOp(args[2], mul)\n            linalg.YieldOp(mac)\n\n        @Builder.implicit_region(\n            (\n                SSAValue.get(self.lhs).type,\n                SSAValue.get(self.rhs).type,\n                *self.result_types,\n            )\n        )",
+     "        def equivalent_region(args: tuple[BlockArgument, ...]) -> None:\n            mul = arith.MuliOp(args[0], args[1])\n            mac = arith.AddiOp(args[2], mul)\n            linalg.YieldOp(mac)\n\n        @Builder.implicit_region(\n            (\n                SSAValue.get(self.lhs).type,\n                *self.result_types,\n            )\n        )", ["C18.tables"]),
+    ("expansion of multi-op bodies", "mutant", K2L, "        if not isinstance(kernel_op.next_op, linalg.YieldOp):\n            return\n", "", ["C18.expand"]),
+    ("twin: rescale statements reordered", "twin", K2L, "        zp_in = ConstantOp.from_int_and_width(op.input_zp.value.data, builtin.IntegerType(32))\n        zp_out = ConstantOp.from_int_and_width(op.output_zp.value.data, builtin.IntegerType(32))", "        zp_out = ConstantOp.from_int_and_width(op.output_zp.value.data, builtin.IntegerType(32))\n        zp_in = ConstantOp.from_int_and_width(op.input_zp.value.data, builtin.IntegerType(32))", []),
+    ("twin: equivalence via all()", "twin", L2K, "    for op_a, op_b in zip(block_a.ops, block_b.ops, strict=True):\n        if type(op_a) is not type(op_b):\n            return False\n\n    return True", "    for op_a, op_b in zip(block_a.ops, block_b.ops, strict=True):\n        if not type(op_a) is type(op_b):\n            return False\n    return True", []),
+]
